@@ -345,6 +345,44 @@ def order_sensitive_ptes(name, limit=8):
     return out
 
 
+_distinct = {}
+
+
+def drawer_type_sensitive_ptes(limit=12):
+    """PTE values that the two shipped tables (MEX, Nimitz) describe differently: a decoder that consults the table of
+    the wrong drawer type is visible on them.  Deterministic."""
+    if 'pte' in _distinct:
+        return _distinct['pte']
+    a = read_shipped_pte_table(shipped('mex_pte.h'))
+    b = read_shipped_pte_table(shipped('nimitz_pte.h'))
+    out = []
+    for table in (a, b):
+        for e in table:
+            pat = e['pattern']
+            if len(pat) != 8:
+                continue
+            v = int(pat.replace('*', '1'), 16)
+            if ref_ilog_message(a, v) != ref_ilog_message(b, v) and v not in out:
+                out.append(v)
+            if len(out) >= limit:
+                break
+    _distinct['pte'] = out
+    return out
+
+
+def drawer_type_sensitive_hashes(limit=12):
+    """trace-string hashes whose text differs between the two shipped string files (or that only one of them has)"""
+    if 'hash' in _distinct:
+        return _distinct['hash']
+    tabs = []
+    for name in ('mexStringFile', 'nimitzStringFile'):
+        with open(shipped(name)) as f:
+            tabs.append({t['hash']: t['fmt'] for t in ref_trace_strings(f.read())})
+    out = [h for h in sorted(set(tabs[0]) | set(tabs[1])) if tabs[0].get(h) != tabs[1].get(h)][:limit]
+    _distinct['hash'] = out
+    return out
+
+
 def is_reported_error(pte):
     return (pte >> 28) == 0xE and (pte & 0x00040000) != 0
 
@@ -619,7 +657,7 @@ def compare_trace_output(lines, data, strings, ascii_name_only=True, oracle='C15
 
 TRACE_FORMATS = ['E> Dev 0x%x: Fail count = %d', 'I> trace_level = %u', 'Cmd Data: 0x%08X', 'no args here',
                  '%s state %d %d %d %d %d', 'rc %d', '100%% done %c', 'I> %x %x %x %x %x %x', 'bad %q spec',
-                 '', 'I> A || B']
+                 '', 'I> A || B', 'fan at 100%% duty', '%%', 'rate = %d%%', '50%% of %u%%']
 
 
 @st.composite
